@@ -36,7 +36,7 @@ SemOf(p, s) == IF HasFix(p) THEN SemTableFix(p, s) ELSE IF HasFb(p) THEN SemTabl
 \* properties that a wrong result is charged to: C01 always; the property whose mechanism the family of
 \* the history exercises as well (a stale result in a durability history is a C02 violation, ...)
 FamProp(m) ==
-    CASE m \in {"dur", "mc-dur"} -> {"C02"}
+    CASE m \in {"dur", "mc-dur", "structdur"} -> {"C02"}
       [] m \in {"untracked", "mc-untracked"} -> {"C04"}
       [] m \in {"lru", "mc-lru"} -> {"C05"}
       [] m \in {"churn", "reclaim"} -> {"C07"}
